@@ -184,6 +184,40 @@ let handle_c line kind fs doc res back =
         pfail line
           (Printf.sprintf "container %s: decoding the document back through encoding/json does not give the identical frame; expected %s" kind exp_back)
 
+(* results of MarshalJSON retained across further calls, sequentially (A) and concurrently (AC) *)
+let json_hex f = match to_json f with S_ok j -> hex_of_bytes j | S_panic -> hex_of_bytes (zs "PANIC")
+
+let handle_a line f1 f2 f3 b1 copy1 b2 b3 j1 j2 =
+  note_case "A-marshal-retained" line;
+  let e1 = json_hex (frame_of_string f1) and e2 = json_hex (frame_of_string f2) and e3 = json_hex (frame_of_string f3) in
+  if copy1 <> e1 then pfail line ("MarshalJSON() result differs from the JSON form; expected " ^ e1)
+  else if b1 <> copy1 then
+    pfail line "marshal-result-aliased: the bytes returned by MarshalJSON() for the first frame changed when further frames were marshalled"
+  else if b2 <> e2 || b3 <> e3 then pfail line "marshal-result-aliased: a later MarshalJSON() result is not the JSON form of its frame"
+  else if j1 <> e1 || j2 <> e2 then pfail line "marshal-result-aliased: json.Marshal of two frames in sequence does not give their JSON forms"
+
+let handle_ac line f results =
+  note_case "AC-marshal-concurrent" line;
+  let e = json_hex (frame_of_string f) in
+  if results <> e then
+    pfail line ("marshal-result-aliased (concurrent): a goroutine saw a MarshalJSON()/json.Marshal result that is not the JSON form of its frame; expected only " ^ e)
+
+(* two decodes into the same destination *)
+let handle_r line kind in1 in2 r1 a1 r2 a2 rf af =
+  let dec = if kind = "RS" then unmarshal_string else unmarshal_json in
+  let s1 = bytes_of_hex in1 and s2 = bytes_of_hex in2 in
+  let o1, d1 = dec s1 zero_frame in
+  let o2, d2 = dec s2 d1 in
+  let of_, df = dec s2 zero_frame in
+  note_case (kind ^ "-destination-reused") line;
+  if r2 = "ok" && rf = "ok" && a2 <> af then
+    pfail line "destination-state: decoding into a used destination gives a different frame than decoding into a fresh one";
+  let expected =
+    String.concat " "
+      [ string_of_outcome o1; string_of_frame d1; string_of_outcome o2; string_of_frame d2; string_of_outcome of_; string_of_frame df ]
+  in
+  if expected <> String.concat " " [ r1; a1; r2; a2; rf; af ] then mismatch line expected
+
 let has_byte p s = List.exists p s
 
 let handle_d line doc sent res dst valid =
@@ -240,6 +274,9 @@ let handle line =
   | [ "J"; f; impl; valid; same ] -> handle_j line f impl valid same
   | [ "M"; f; impl ] -> handle_m line f impl
   | [ "C"; kind; f; doc; res; back ] -> handle_c line kind f doc res back
+  | [ "A"; f1; f2; f3; b1; copy1; b2; b3; j1; j2 ] -> handle_a line f1 f2 f3 b1 copy1 b2 b3 j1 j2
+  | [ "AC"; f; _; results ] -> handle_ac line f results
+  | [ (("RS" | "RJ") as kind); in1; in2; r1; a1; r2; a2; rf; af ] -> handle_r line kind in1 in2 r1 a1 r2 a2 rf af
   | [ "D"; doc; sent; res; dst; valid ] -> handle_d line doc sent res dst valid
   | [ "E"; kind; doc; res; f ] -> handle_e line kind doc res f
   | [ "O-pu16"; s; r ] -> oracle line "O-ParseUint16" (string_of_pu (parse_uint (bytes_of_hex s) (z_of_int 16) (z_of_int 32))) r
